@@ -364,15 +364,24 @@ class HddSplit(Suite):
                 w.write(xml)
             out = {"open": None, "reqs": []}
             try:
-                stream = HDD(Path(d)).open()
+                hdd = HDD(Path(d))
+                stream = hdd.open()
+                other = hdd.open()           # a second stream of the same disk (another consumer of the same HDD object)
             except Exception as e:  # noqa: BLE001
                 out["open"] = {"outcome": "exc", "exc": type(e).__name__, "msg": str(e)[:200]}
                 return out
             out["size"] = int(stream.size)
-            for a, b in case["reqs"]:
-                def f(a=a, b=b):
+            for k, (a, b) in enumerate(case["reqs"]):
+                def f(a=a, b=b, k=k):
+                    # the request in two parts, the second continuing where the first stopped, with the other stream
+                    # used in between (at another place of the disk)
                     stream.seek(a)
-                    return stream.read(b)
+                    if b is None or b < 2 or k % 2 == 0:
+                        return stream.read(b)
+                    r1 = stream.read(b // 2)
+                    other.seek((a * 5 + 4096 * k + 512) % max(1, int(other.size)))
+                    other.read(1536)
+                    return r1 + stream.read(b - b // 2)
                 out["reqs"].append(call(f))
             return out
         finally:
